@@ -36,9 +36,6 @@ func codecBody(r *rng) ([]byte, string) {
 		// incompressible and well beyond one internal buffer of any of the codecs
 		return r.bytes(150000 + r.intn(250000)), "random-huge"
 	case 11:
-		if r.chance(12) {
-			return make([]byte, 17<<20), "zeros-17MB"
-		}
 		return bytes.Repeat([]byte("0123456789abcdef"), 70000), "repetitive-1MB"
 	case 0:
 		return nil, "empty"
@@ -92,7 +89,7 @@ func guarded(f func() ([]byte, error)) (out []byte, res string) {
 			return nil, "err"
 		}
 		return rr.b, "ok"
-	case <-time.After(20 * time.Second):
+	case <-time.After(90 * time.Second):
 		// the call is still running (a goroutine cannot be stopped): report it and end the suite after this case,
 		// a spinning decoder would only slow down everything that follows
 		codecsAbort = true
@@ -149,8 +146,10 @@ func suiteCodecs(r *rng, n int) {
 		cr := r.fork(uint64(i))
 		body, cls := codecBody(cr)
 		op := cr.intn(4)
-		if cls == "zeros-17MB" {
-			op = 1 // the decoders' side only: what an origin may send
+		if i%700 == 7 {
+			// once in a while (once per quick run) a body beyond every "reasonable" size limit a decoder might have been
+			// given: 17 MB of zeros, on the decoders' side only (what an origin may send)
+			body, cls, op = make([]byte, 17<<20), "zeros-17MB", 1
 		}
 		switch op {
 		case 0: // encoders at a configured level
